@@ -35,6 +35,20 @@ for d in sorted(glob.glob(os.path.join(V, 'seeded', '*'))):
         os.path.basename(d), esc(str(m.get('summary', ''))[:160]), m.get('property', ''), esc(str(m.get('needs', ''))[:200]),
         esc(v.get('unit_suite_with_patch', '').replace('baseline: ', '')), '; '.join(det), esc('; '.join('`%s`' % x for x in keys))))
 out['SEEDED'] = '\n'.join(rows)
+rows = ['| property | engine | legs: bound (as run in the quick tier; thorough bounds are in each check module) | evaluations | states | wall s |', '|---|---|---|---|---|---|']
+import importlib, sys
+sys.path[:0] = ['/repo', V]
+for f in sorted(glob.glob(os.path.join(V, 'evidence', 'C*.json'))):
+    ev = json.load(open(f))
+    pid = ev['property_id']
+    try:
+        eng = getattr(importlib.import_module('checks.' + pid.lower()), 'ENGINE', 'E1 domain')
+    except Exception:
+        eng = '?'
+    cov = ev['coverage']
+    legs = '; '.join('**%s**: %s' % (l['leg'], esc(l.get('bound', ''))[:230]) for l in cov.get('legs', []))
+    rows.append('| %s | %s | %s | %d | %s | %.0f |' % (pid, eng, legs, cov.get('evaluations', 0), cov.get('states', ''), ev['wall_s']))
+out['BUILT'] = '\n'.join(rows)
 p = os.path.join(V, 'DESIGN.md')
 s = open(p).read()
 for name, text in out.items():
